@@ -83,6 +83,26 @@ def has_unique(t):
     return (t.kind == "clist" and t.cons[0] == "unique") or any(has_unique(k) for k in t.kids)
 
 
+JSON_CLASS = {"list": "array", "clist": "array", "set": "array", "frozenset": "array", "tuple": "array", "vtuple": "array",
+              "mapping": "object", "cdict": "object", "typeddict": "object", "dataclass": "object", "namedtuple": "object"}
+
+
+def json_ambiguous_union(t):
+    """a union two alternatives of which read the same JSON class (two objects, two arrays): which alternative accepts the
+    serialized value first is a matter of the data, so the value need not come back in its own class"""
+    if t.kind in ("union", "optional"):
+        seen = []
+        for a in t.kids:
+            b = a
+            while b.kind in ("newtype",) and b.kids: b = b.kids[0]
+            jc = JSON_CLASS.get(b.kind)
+            if b.kind == "tuple": jc = "array:%d" % len(b.kids)          # fixed lengths tell tuples apart
+            clash = jc and (jc in seen or (jc.startswith("array") and any(x == "array" for x in seen)) or (jc == "array" and any(x.startswith("array") for x in seen)))
+            if b.kind == "any" or clash: return True
+            if jc: seen.append(jc)
+    return any(json_ambiguous_union(k) for k in t.kids)
+
+
 def ambiguous_union(t):
     """a union two alternatives of which are selected by the same runtime class (serialization takes the first
     isinstance match, so a value of the later alternative is serialized as if it were of the earlier one): outside the
@@ -108,18 +128,21 @@ def bijective(t):
 def run(prop, seed, budget, ctx):
     from apischema import deserialize, serialize, ValidationError
     rnd = random.Random(seed * 31 + sum(map(ord, prop))); pool = Pool(); g = Gen(rnd, pool, None)
-    g.kinds = g.kinds + ["sequence", "aggregate"]
+    g.kinds = g.kinds + ["sequence", "aggregate", "tuple_union"]
     types = [g.ty(3) for _ in range(300 * budget)]
     mod = build_module(pool.source(), f"{prop}_{seed}"); ns = dict(vars(mod))
     reqs, meta, failures, hist, distinct, samples = [], [], [], collections.Counter(), set(), []
     for t in types:
         tp = eval(t.py, ns)
         # (uniqueItems is tested on the raw data: distinct data may have equal images, which are then not values of the type)
-        amb = ambiguous_union(t) or has_unique(t) or (prop == "C05" and has_props_bound_on_class(t))
+        amb = ambiguous_union(t) or has_unique(t) or (prop == "C05" and (has_props_bound_on_class(t) or json_ambiguous_union(t)))
         if amb: hist["excluded:ambiguous-union-or-uniqueItems"] += 1; continue
         for _ in range(8):
             d = g.valid(t)
-            so = {"exclude_none": rnd.random() < 0.3, "exclude_defaults": rnd.random() < 0.3, "ap": rnd.random() < 0.3}
+            feats = t.features()
+            # options are drawn where they matter: exclude_none next to Optional positions, additional_properties next to TypedDicts
+            so = {"exclude_none": rnd.random() < (0.55 if {"optional", "none"} & feats else 0.2), "exclude_defaults": rnd.random() < 0.3,
+                  "ap": rnd.random() < (0.6 if "typeddict" in feats else 0.25)}
             o = {"ap": so["ap"], "fbod": False, "nc": rnd.random() < 0.5, "octor": False, "coerce": False, "repaired": True}
             try: v = deserialize(tp, fresh(d), additional_properties=o["ap"], no_copy=o["nc"])
             except Exception: hist["datum-not-accepted"] += 1; continue
